@@ -21,13 +21,40 @@ DEFAULT = dict(
     p_cache_ops=0.08, cache_rels=['../cache.gz', '../cache.gz', 'cache.gz',
                                   '../cd/cache.gz'],
     query_kinds=QUERY_KINDS, p_tamper=0.3, args_pool='small',
-    p_spelling=0.0, p_get_size=1.0,
+    p_spelling=0.0, p_get_size=1.0, w_probe=0, w_mut=0, p_ret_val=0.0,
+    names=None, p_q_spelling=0.0, p_chdir_step=0.0, p_tick0=0.0,
+    p_tick_back=0.0, mutation_ops=['write', 'write', 'rm', 'rm', 'mkdir',
+                                   'touch'],
+    p_refuse_step=0.0, n_muts=(1, 3), p_q_near_output=0.5, p_plant=0.0, p_double_clean=0.0,
+    p_plain_build=0.0,
 )
+
+# JSON values for arguments / return values / versions (C07, C16)
+RICH_VALUES = [
+    None, True, False, 0, 1, -1, 2, 1.0, 1.5, -0.0, 2 ** 53 + 1, 2 ** 64,
+    {'__float__': 'inf'}, '', 'a', '0', '1', 'true', 'null', '\u00e9',
+    '\U0001f600', 'a b', [], [1], [1, 2], [2, 1], [[1]], [None], [True],
+    {}, {'a': 1}, {'a': 1, 'b': 2}, {'b': 2, 'a': 1}, {'a': [1, {'b': None}]},
+    {'1': 'x'}, {'__dict__': [[1, 'x']]}, {'__dict__': [[True, 'x']]},
+    {'__dict__': [[None, 0]]}, {'__dict__': [[1.5, 0]]},
+    {'__tuple__': [1, 2]}, {'__tuple__': []}, [{'__tuple__': [1]}],
+    {'a': {'__tuple__': [1, [2]]}}, 1e300, 1e-7, 'x' * 40,
+]
 
 
 def ancestors(rel):
     parts = rel.split('/')
     return ['/'.join(parts[:i]) for i in range(1, len(parts))]
+
+
+REFUSALS = [
+    'trunc0', 'trunc1', 'trunc10', 'truncmid', 'trunclast', 'flip-header',
+    'flip-body', 'flip-trailer', 'gz-nonjson', 'gz-list', 'gz-other-software',
+    'gz-newer-version', 'gz-missing-keys', 'not-gzip', 'dir-at-cache',
+    'wrong-name', 'name-not-str', 'func-not-callable', 'versions-not-dict',
+    'versions-not-json', 'clean-wrong-name', 'clean-name-not-str',
+    'clean-trunc', 'clean-not-gzip', 'cache-path-bad-type',
+]
 
 
 class Gen:
@@ -51,6 +78,10 @@ class Gen:
         rng = self.rng
         n = self.ri('n_paths')
         names = NAMES[:rng.randint(2, 3)]
+        if self.p['names']:
+            names = list(self.p['names'])
+            rng.shuffle(names)
+            names = names[:rng.randint(2, 4)]
         U = set()
         tries = 0
         while len(U) < n and tries < 100:
@@ -75,8 +106,23 @@ class Gen:
             out.append(c)
         return sorted(out)
 
+    def rich_value(self):
+        rng = self.rng
+        v = rng.choice(RICH_VALUES)
+        if rng.random() < 0.25:
+            v = [v, rng.choice(RICH_VALUES)]
+        elif rng.random() < 0.15:
+            v = {'k': v}
+        return v
+
     def small_args(self):
         rng = self.rng
+        if self.p['args_pool'] == 'rich':
+            args = [self.rich_value() for _ in range(rng.randint(0, 2))]
+            kwargs = {}
+            if rng.random() < 0.4:
+                kwargs[rng.choice(['k', 'z'])] = self.rich_value()
+            return args, kwargs
         pool = [[], [], [1], [2], ['x'], [[1, 2]], [{'k': 1}], [None],
                 [True], [1.5]]
         args = list(rng.choice(pool))
@@ -89,6 +135,12 @@ class Gen:
         kind = rng.choice(self.p['query_kinds'])
         pool = list(U) + [''] + [a for u in U for a in ancestors(u)]
         rel = rng.choice(pool)
+        O = getattr(self, 'cur_O', None)
+        if O and rng.random() < self.p['p_q_near_output']:
+            # ask about what builds touch: outputs, their ancestors, siblings
+            o = rng.choice(O)
+            near = [o] + ancestors(o)
+            rel = rng.choice(near)
         if kind == 'get_size':
             # sizes of directories are outside the universe: aim at paths
             # that are likely to be regular files
@@ -101,6 +153,10 @@ class Gen:
         st = ['q', kind, rel]
         if kind in ('read_text', 'read_binary', 'declare_read'):
             st.append('HASH' if self.chance('p_hash') else 'METADATA')
+        if self.chance('p_q_spelling'):
+            if len(st) == 3:
+                st.append('METADATA')
+            st.append(rng.choice(['bytes', 'pathlike', 'redundant', 'rel']))
         return st
 
     def gen_body(self, ctx, fid_index, nest, is_file):
@@ -111,9 +167,11 @@ class Gen:
         body = []
         weights = [('q', p['w_q']), ('bf', p['w_bf']), ('sb', p['w_sb']),
                    ('if', p['w_if']), ('raise', p['w_raise']),
-                   ('dup', p['w_dup'])]
+                   ('dup', p['w_dup']), ('probe', p['w_probe']),
+                   ('mut', p['w_mut'])]
         if nest >= p['max_nest']:
-            weights = [(k, w) for k, w in weights if k in ('q', 'raise')]
+            weights = [(k, w) for k, w in weights
+                       if k in ('q', 'raise', 'probe', 'mut')]
         kinds = [k for k, w in weights]
         ws = [w for k, w in weights]
         for _ in range(n):
@@ -154,6 +212,13 @@ class Gen:
                              self.gen_body_short(ctx, fid_index, nest + 1)])
             elif k == 'raise':
                 body.append(['raise', rng.choice(USER_EXC)])
+            elif k == 'probe':
+                pool = sorted(set(
+                    list(ctx['U']) + [''] +
+                    [a for u in ctx['U'] for a in ancestors(u)]))
+                body.append(['probe', pool])
+            elif k == 'mut':
+                body.append(['mut', rng.choice(['last', 'last', 'args'])])
             elif k == 'dup':
                 if ctx['calls']:
                     body.append(list(rng.choice(ctx['calls'])))
@@ -176,6 +241,8 @@ class Gen:
                 body.insert(rng.randint(0, len(body)), ['w', mode])
         if self.chance('p_nonjson'):
             body.append(['ret', 'nonjson'])
+        elif self.chance('p_ret_val'):
+            body.append(['ret', 'pyval', self.rich_value()])
         return body
 
     def gen_body_short(self, ctx, fid_index, nest):
@@ -208,6 +275,7 @@ class Gen:
                 (files if kind == 'file' else subs).append((idx, fid))
                 idx += 1
             ctx = {'U': U, 'O': O, 'files': files, 'subs': subs, 'calls': []}
+            self.cur_O = O
             for i, fid, kind in specs:
                 nv = 2 if self.chance('p_two_variants') else 1
                 variants = [self.gen_body(ctx, i, 1, kind == 'file')
@@ -248,7 +316,13 @@ class Gen:
             rel = rng.choice(O_all)
         else:
             rel = rng.choice(pool)
-        op = rng.choice(['write', 'write', 'rm', 'rm', 'mkdir', 'touch'])
+        if self.chance('p_plant'):
+            # a foreign file next to / below something the build manages
+            base = rng.choice(pool)
+            rel = base + '/' + rng.choice(['p', 'q']) if rng.random() < 0.7 \
+                else rng.choice(['p', 'q'])
+            return [['write', rel, self.ext_content()]]
+        op = rng.choice(self.p['mutation_ops'])
         if op == 'write':
             return [['write', rel, self.ext_content()]]
         return [[op, rel]]
@@ -286,18 +360,37 @@ class Gen:
             r = rng.random()
             if i > 0 and r < self.p['p_mutate_step']:
                 muts = []
-                for _ in range(rng.randint(1, 3)):
+                for _ in range(self.ri('n_muts')):
                     muts.extend(self.gen_mutation(U, O_all))
-                steps.append({'op': 'mutate', 'muts': muts})
+                step = {'op': 'mutate', 'muts': muts}
+                if self.chance('p_tick0'):
+                    step['tick'] = 0
+                steps.append(step)
             elif i > 0 and r < self.p['p_mutate_step'] + \
                     self.p['p_clean_step']:
                 steps.append({'op': 'clean'})
+                if self.chance('p_double_clean'):
+                    steps.append({'op': 'clean'})
+            elif i > 0 and self.chance('p_chdir_step'):
+                steps.append({'op': 'chdir', 'rel': rng.choice(
+                    [''] + [a for u in U for a in ancestors(u)])})
+            elif i > 0 and self.chance('p_refuse_step'):
+                steps.append({'op': 'refuse',
+                              'how': rng.choice(REFUSALS),
+                              'arg': rng.randrange(1 << 16)})
             else:
                 if len(roots) > 1 and rng.random() < 0.3:
                     root = rng.randrange(len(roots))
                 versions = self.gen_versions(funcs, versions)
-                steps.append({'op': 'build', 'root': root,
-                              'versions': dict(versions)})
+                step = {'op': 'build', 'root': root,
+                        'versions': dict(versions)}
+                if self.chance('p_tick0'):
+                    step['tick'] = 0
+                elif self.chance('p_tick_back'):
+                    step['tick'] = -2
+                if self.chance('p_plain_build') and not versions:
+                    step['plain'] = True
+                steps.append(step)
         if not any(s['op'] == 'build' for s in steps):
             steps.append({'op': 'build', 'root': 0, 'versions': {}})
         # always end with a build so that the last mutation is observed
